@@ -70,6 +70,56 @@ class Delta:
         return "Delta(%r)" % (self.value,)
 
 
+class ABuf:
+    """bytearray(<pending delta>) being filled with an event: bytes(buf) is the event, emitted with that delta."""
+
+    def __init__(self, delta, items=None):
+        self.delta = delta
+        self.items = list(items or [])
+
+    def _take(self, x):
+        if isinstance(x, (bytes, bytearray)):
+            return list(x)
+        if isinstance(x, ABytes):
+            return list(x.items)
+        if isinstance(x, (list, tuple)):
+            return list(x)
+        if isinstance(x, VarByte):
+            return [x]
+        return None
+
+    def a_method(self, interp, name, args, kwargs, node):
+        if name == "append" and len(args) == 1:
+            self.items.append(args[0])
+            return None
+        if name == "extend" and len(args) == 1:
+            t = self._take(args[0])
+            if t is None:
+                raise CannotDecide("bytearray.extend(%r)" % (args[0],))
+            self.items.extend(t)
+            return None
+        return NotImplemented
+
+    def a_binop(self, interp, op, other, reflected, node):
+        if op is ast.Add and not reflected:
+            t = self._take(other)
+            if t is not None:
+                return ABuf(self.delta, self.items + t)
+        return NotImplemented
+
+    def emitted(self):
+        self.delta.uses += 1
+        if all(isinstance(x, int) and not isinstance(x, bool) for x in self.items):
+            try:
+                return Emitted(self.delta, Chunk.of(bytes(self.items)))
+            except ValueError:
+                raise RaiseEx("ValueError", None)
+        return Emitted(self.delta, Chunk.of(ABytes(self.items)))
+
+    def __repr__(self):
+        return "ABuf(%r, %r)" % (self.delta, self.items)
+
+
 class Chunk:
     """Concatenation of bytes-like parts."""
 
@@ -177,6 +227,10 @@ def install(interp, track_obj_pred=None):
     ticks = interp.__dict__.setdefault("tick_syms", {})
 
     def cb(name, args, kwargs, node=None):
+        if name == "bytearray" and len(args) == 1 and isinstance(args[0], Delta):
+            return ABuf(args[0])
+        if name == "bytes" and len(args) == 1 and isinstance(args[0], ABuf):
+            return args[0].emitted()
         if name == "bytes" and len(args) == 1 and isinstance(args[0], list):
             if all(isinstance(x, int) and not isinstance(x, bool) for x in args[0]):
                 try:
